@@ -65,6 +65,29 @@ func stringsFuncOracle(c *Ctx) {
 // characters: a stateful closure sees exactly the calls the same loop written in the script makes.
 func stringsStatefulOracle(c *Ctx) {
 	mm := ugo.NewModuleMap().AddBuiltinModule("strings", ugostrings.Module)
+	// every character of the subject reaches the callback, also U+FFFD (valid, or standing for an invalid byte)
+	for _, fx := range []struct{ src, want string }{
+		{`strings := import("strings"); n := 0; i := strings.IndexFunc("ab\ufffdcd", func(c) { n++; return c == '\ufffd' }); return [i, n]`, "[2, 3]"},
+		{`strings := import("strings"); n := 0; i := strings.LastIndexFunc("ab\ufffdcd", func(c) { n++; return c == '\ufffd' }); return [i, n]`, "[2, 3]"},
+		{`strings := import("strings"); seen := []; i := strings.IndexFunc("a\xffb", func(c) { seen = append(seen, int(c)); return false }); return [i, seen]`, "[-1, [97, 65533, 98]]"},
+		{`strings := import("strings"); n := 0; r := strings.Map(func(c) { n++; return c }, "x\ufffdy"); return [len(r), n]`, "[5, 3]"},
+		{`strings := import("strings"); n := 0; r := strings.TrimFunc("\ufffdab\ufffd", func(c) { n++; return c == '\ufffd' }); return [r, n]`, `["ab", 4]`},
+	} {
+		c.dist["oracle:strings-stateful"]++
+		bc, err := ugo.Compile([]byte(fx.src), ugo.CompilerOptions{ModuleMap: mm})
+		if err != nil {
+			c.Violation(PropViolation{"C14", "U+FFFD callback script does not compile: " + err.Error(), fx.src, "C14:stateful-compile"})
+			continue
+		}
+		ret, err := ugo.NewVM(bc).SetRecover(true).Run(nil)
+		got := fmt.Sprint(ret)
+		if err != nil {
+			got = "error: " + semFirstLine(err.Error())
+		}
+		if got != fx.want {
+			c.Violation(PropViolation{"C14", fmt.Sprintf("a strings.*Func builtin does not hand every character to its script callback: got %s, want %s", got, fx.want), fx.src, "C14:callback-calls-differ:replacement-char"})
+		}
+	}
 	for _, in := range []string{"aabbb  cc", "zzzz", "abab", "", "ééa", "a"} {
 		src := fmt.Sprintf(`strings := import("strings")
 s := %q
